@@ -771,13 +771,27 @@ func (prop c08) Execute(sc *sim.Scenario) *sim.Outcome {
 		}
 	}
 
-	/* final sweep: make 'tracked' observable */
+	/* final sweep: make 'tracked' observable. Bounded: on long histories the
+	   most recent 32 admissible roots and 16 spread evenly over the older ones
+	   (every sweep step fingerprints every live tensor, so an unbounded sweep
+	   is quadratic in the history length and cubic in the worst case) */
+	var roots []int
 	for i := len(live) - 1; i >= 0; i-- {
-		id := live[i]
+		roots = append(roots, live[i])
+	}
+	if len(roots) > 48 {
+		older := roots[32:]
+		roots = roots[:32:32]
+		for k := 0; k < 16; k++ {
+			roots = append(roots, older[k*len(older)/16])
+		}
+		out.Probes["final-sweep-bounded"]++
+	}
+	before := snapshot()
+	for _, id := range roots {
 		if !m.backpropAllowed(id) {
 			continue
 		}
-		before := snapshot()
 		err := tensor.BackPropagate(pool.T[id])
 		if err != nil {
 			out.Fail("backprop-error", "final sweep: BackPropagate(tensor %d) returned error: %v", id, err)
@@ -793,9 +807,22 @@ func (prop c08) Execute(sc *sim.Scenario) *sim.Outcome {
 			oracle = "untracked-root-changed-state"
 		}
 		where := fmt.Sprintf("final sweep, BackPropagate(tensor %d)", id)
-		if !unchangedExcept(before, ex, where, oracle) {
-			return fin()
+		after := snapshot()
+		for _, lid := range live {
+			b, ok := before[lid]
+			if !ok || ex[lid] {
+				continue
+			}
+			if after[lid].pub != b.pub {
+				out.Fail(oracle, "%s: tensor %d changed (values or gradient) although the step must not touch it", where, lid)
+				return fin()
+			}
+			if after[lid].deep != b.deep {
+				out.Fail(oracle, "%s: tensor %d's own state (tracking / edges / data) changed although the step must not touch it", where, lid)
+				return fin()
+			}
 		}
+		before = after
 		if !checkNil(where) {
 			out.Violation.Oracle = "sweep-" + out.Violation.Oracle
 			return fin()
